@@ -103,6 +103,8 @@ def parse_records(text):
                 last = None
             elif ((depth == 1 and eid in (21, 31)) or (depth >= 1 and eid in (40, 41))) and last is not None:
                 last.post.append((eid, d))
+        elif t == "O":
+            cur.oom = kvs(l)
         elif t == "P" or t == "Q":
             cur.precond = getattr(cur, "precond", []) + [l]
         elif t == "X" and last is not None:
